@@ -22,7 +22,8 @@ CLAIMED = {
     'C01': (
         'Coq proof by induction on fuel / expression / scan steps that reduce() preserves the denotation, for any rule '
         'order and any leaf semantics satisfying the stated algebraic facts; T-tie (rule registry, class hierarchy, '
-        'method resolution regenerated from the package and compared in Coq); differential correspondence of reduce() '
+        'method resolution, and the BODY of AbstractBinaryRule.check translated statement by statement into Gallina and proved equal to the '
+        'model\'s guard_ok: generic_check_as_modelled; regenerated from the package and compared in Coq on every run); differential correspondence of reduce() '
         'on real operator expressions (skeleton, structures, dense matrix)',
         'reduce_sound: for every expression tree, registry order and fuel, if reduce returns e then every input the '
         'original accepts gives the same output through e; reduce_structs: e is again well-formed and has the same input '
@@ -138,7 +139,8 @@ CLAIMED = {
         'tags_truthful, self_transpose_ok, inv_is_T_ok, square_ok, never_overtagged, decorators_justified over any '
         'commutative ring; T-tie theorems every_declared_tag_has_a_proof, decorator_effects_are_implied, '
         'symmetric_returns_self compiled against the regenerated table on every run. C-tie: dense matrices, op.T is op, op.I '
-        'vs op.T, structures, lineax predicates of every tagged class over its parameter scope vs the model.',
+        'vs op.T, structures, lineax predicates of every tagged class over its parameter scope vs the model; oracle-only precision grid '
+        '(x64 on/off x parameter dtype x data dtype, parameters up to 1e6, every tag and dense(op.T) = M^T, dense(op.I) M = I against the float64 closed form).',
         'Guards: constructor checks; Toeplitz/QURotation parameters not wider than the input (wider ones are a reported '
         'boundary, as in C05); parameter layout abstracted (C11/C09/C15); translator bytecode/ast recognition; exact ring '
         'for floats; harness.',
@@ -150,10 +152,11 @@ CLAIMED = {
         'constructors, strict <=> shape-preserving, as_matrix = generic columns, pseudo-inverse laws; differential '
         'correspondence on ~13000 constructor calls / applications with an independent NumPy element-formula oracle',
         'diag_elementwise(_leaf), scalar_axis_forms, broadcast_dims_minimal, ctor_accepts_legal (iff), ctor_rejects, '
-        'strict_preserves_shape (iff), mixed_rank_leaves, diag_as_matrix, pinv_is_pseudo_inverse: all closed under the '
+        'strict_preserves_shape (iff), mixed_rank_leaves, diag_as_matrix, pinv_is_pseudo_inverse, ctor_decided_leaf_by_leaf, '
+        'ctor_leaf_order_irrelevant, mv_decided_leaf_by_leaf, mv_one_bad_leaf_raises (no state carried across leaves): all closed under the '
         'global context, no clause partial. Tie: C-tie enumerating rank<=2 leaves completely (+ sampled rank 3, thorough: '
         'complete), all scalar axes in [-4,3], all distinct axis tuples, both classes, pytrees of mixed rank, malformed '
-        'stream; prime-valued inputs.',
+        'stream; prime-valued inputs; same-rank multi-leaf pytrees with the offending leaf first / middle / last, each leaf also run alone.',
         'Trusts Gallina specs of moveaxis/reshape/broadcasting/diag/where (validated on the enumerated scope), exact Z/Q for '
         'float32 on exactly representable inputs; wrong-length axis tuples, None and Python-scalar values are outside the '
         'theorems (first still covered by correspondence).',
@@ -247,7 +250,8 @@ CLAIMED = {
         'block_transposes(+adjoint), blockdiag_inverse(_sound), ctor_ok_iff, ctor_rejects_mismatch, '
         'block_rules_fire_iff_same_treedef, block_rules_sound, row_col_is_sum, ctor_rejects_other_container, lazy_transpose_inverse, blockdiag_steps (any .T/.I sequence is taken block by block): all obligations (count in the evidence file) closed under the global '
         'context, nothing partial. Tie: C-tie on 9 container shapes x ~25 block kinds and all compatible pairs of ~50 block '
-        'operators (592 quick / 1808 thorough cases).',
+        'operators (592 quick / 1808 thorough cases); oracle-only dtype-changing blocks (every ordered pair of data / matrix dtype incl. x64) for the '
+        'three block kinds x nine containers; mismatch cases record construction separately from later use (refusal must happen AT construction).',
         'Matrix forms assume each block acts as a matrix (shown for the measured-matrix leaves of Exec by '
         'exec_table_leaf_acts_as); adjointness of leaf pairs is C03; iterative InverseOperator blocks compared structurally '
         '(action: C06); jax.tree / hstack / vstack / block_diag specs compared with the real functions on every case.',
@@ -331,8 +335,11 @@ CLAIMED = {
         'the global context. Tie: C-tie on ~160 operands (einsum variants incl. repeated letters, axes, index, diagonal, '
         'Toeplitz, obs-matrix, explicit TransposeOperators) in 10 contexts: skeleton, structures, dense matrices of e.T and '
         'e.T.T, integer-probe inner products (1314 quick / 14874 thorough).',
-        'Partial: the matrix form mat(e.T) = mat(e)^T is not a separate theorem (it is the adjoint identity at basis vectors; '
-        'checked by the oracle on every case); transpose_involutive covers wrappers as .T creates them. Trusted: '
+        'The matrix form mat(e.T) = mat(e)^T is a theorem for the executable semantics (Props/C03Mat.v: harness_transpose_matrix, '
+        'harness_transpose_involutive_matrix, exec_transpose_matrix; 18 statements) under decidable hypotheses (wfo, sym_square, table_okb, '
+        'ptable_okb, transposeT_okb) that are evaluated by vm_compute on every model-compared case and must be true; a selfT stream covers every '
+        'class whose transpose() returns self (discovered from the package, fail-closed) across its parameter space (Toeplitz: 4 methods x explicit '
+        'fft sizes x K>n). transpose_involutive covers wrappers as .T creates them. Trusted: '
         'jax.linear_transpose yields the adjoint of an opaque operator (validated numerically on every operand); '
         'table-backed leaf facts rest on measured matrices (element-level proofs in C09/C11/C13/C14). Transposes of the '
         'iterative inverse are excluded (unsupported by the library).',
